@@ -125,8 +125,7 @@ PlainLight(t) == [text |-> t, variant |-> 1, lines |-> LineLens(t), bytes |-> Su
 \* parsed another text before (entry "Reparse", the earlier text in `first`: a valid module, a text with a syntax error,
 \* the empty text, a module that breaks a rule between statements, a short module after many empty lines - shorter and
 \* longer, with fewer and more lines than the text under test).  ViaOther(v, k): the vector v through the k-th other entry.
-OtherEntries == <<"ParseWithInterners", "New.Parse", "NewWithInterners.Parse", "Reparse">>
-AllEntries == <<"Parse">> \o OtherEntries
+\* (OtherEntries, AllEntries: YangChars)
 FirstTexts == << HoleText(Holes[1], "2020-01-01"), S2C("a b c"), << >>, HoleText(Holes[5], "5..1"),
                  [i \in 1..14 |-> LF] \o S2C("module x { namespace \"urn:x\"; prefix x; }"), S2C("module x { typedef a { type string; } typedef a { type string; } }") >>
 Via(v, e, k) == [v EXCEPT !.entry = e, !.first = IF e = "Reparse" THEN FirstTexts[1 + (k % Len(FirstTexts))] ELSE << >>]
@@ -210,10 +209,21 @@ RunUnits == << <<DQ, DQ>>, <<SQ, SQ>>, <<DQ, DQ, SP>>, <<DQ, DQ, PLUS>>, <<SQ, S
                <<LBR, SEMI, RBR>>, <<PLUS>>, S2C("a;"), <<DQ, DQ, SEMI>>, S2C("x ") \o <<DQ, DQ, SEMI>>, <<DQ, DQ, LF>>, <<SQ, SQ, SEMI, LF>>, <<DQ, DQ, LBR>> >>
 RunCounts == IF AliasWide THEN (1..64) \cup {8 * k : k \in 9..50} \cup {65, 127, 129, 255, 257, 399}
              ELSE (1..12) \cup {16, 24, 32, 33, 48, 64, 65, 96, 100, 128, 129, 200, 256, 257, 300, 399, 400}
-RECURSIVE Rep(_, _)
-Rep(u, n) == IF n = 0 THEN << >> ELSE IF n = 1 THEN u ELSE LET h == Rep(u, n \div 2) IN h \o h \o (IF n % 2 = 1 THEN u ELSE << >>)
+\* (text and geometry are put together from pieces, as for chunk 300; here a piece need not end with a line feed: `lines` are the
+\* byte lengths of its complete lines, `open` the bytes after its last line feed)
+PieceG(t) == LET ls == LineLens(t) IN [text |-> t, lines |-> SubSeq(ls, 1, Len(ls) - 1), open |-> ls[Len(ls)], bytes |-> SumWidth(t, 1, Len(t))]
+JoinG(a, b) == [text |-> a.text \o b.text, bytes |-> a.bytes + b.bytes,
+                lines |-> IF b.lines = << >> THEN a.lines ELSE a.lines \o <<a.open + b.lines[1]>> \o Tail(b.lines),
+                open |-> IF b.lines = << >> THEN a.open + b.open ELSE b.open]
+RECURSIVE RepG(_, _)
+RepG(p, n) == IF n = 1 THEN p ELSE LET h == RepG(p, n \div 2)  hh == JoinG(h, h) IN IF n % 2 = 1 THEN JoinG(hh, p) ELSE hh
+LightG(p) == [text |-> p.text, variant |-> 1, lines |-> Append(p.lines, p.open), bytes |-> p.bytes, nitems |-> 0, lastItem |-> "n/a", endsIn |-> "n/a", inBlock |-> FALSE,
+              entry |-> "Parse", first |-> << >>]
 RunTails == << << >>, <<SEMI>>, S2C(" }"), <<LF>> >>
-RunCases(u_) == {ViaAny(PlainLight(RunHeads[h] \o Rep(RunUnits[u], n) \o RunTails[1 + ((h + u + n) % Len(RunTails))]), h + u + n)
+RunCases(u_) == LET HP == [h \in 1..Len(RunHeads) |-> PieceG(RunHeads[h])]
+                    UP == [u \in 1..Len(RunUnits) |-> PieceG(RunUnits[u])]
+                    TP == [k \in 1..Len(RunTails) |-> PieceG(RunTails[k])] IN
+                {ViaAny(LightG(JoinG(JoinG(HP[h], RepG(UP[u], n)), TP[1 + ((h + u + n) % Len(RunTails))])), h + u + n)
                  : h \in 1..Len(RunHeads), u \in 1..Len(RunUnits), n \in RunCounts}
 \* chunk 200: given texts (repository YANG cut at random points), file InFile: records [text]
 Given(u_) == ndJsonDeserialize(InFile)
